@@ -4,6 +4,7 @@ package c16
 
 import (
 	"fmt"
+	"iter"
 	"math/rand"
 	"runtime"
 	"sort"
@@ -25,7 +26,20 @@ const Rule = "cases = (register kinds: u unordered, s stable, sorted with compar
 	"Clone/CloneEmpty/AnyMatch/AllMatch/FirstMatch/SelectMatch/PartitionMatch/Union/Intersection/Difference with 0-6 operands of " +
 	"any mix (the receiver itself, the same operand twice), Powerset n<=7, Partitions n<=6, and edits of every member of a " +
 	"Powerset/Partitions result; aliasing cases edit every result (Clone/Union/Intersection/Difference/SelectMatch/PartitionMatch) " +
-	"and then the operands, at sizes 3-17; every register other than the destination is compared with its String() snapshot " +
+	"and then the operands, at sizes 3-17; every slice handed to the package as a variadic argument (values of New*/Add/Remove/" +
+	"Contains, operands of Union/Intersection/Difference) is a private copy that the harness overwrites and appends to right after the call; " +
+	"iterators used as a for-range loop does not: all2 (one iter.Seq run, another set traversed, the same Seq run again), allnest (All() inside All(), " +
+	"also of the same set), allpull (two iter.Pull iterators, also over the same set, advanced alternately), allbreak (a traversal abandoned " +
+	"half-way, then a full one); deterministic size families on every check: fam=size (per implementation 63-65, 255-257, 1023-1025 members " +
+	"— thorough also 127-129, 511-513, 2047-2049, 4097 and all 7 comparators x 4 ways of building (one Add per value ascending / descending / evens then " +
+	"odds, one variadic Add) x 4 ways of shrinking (one Remove per value from the front / from the second-to-last member down / every second, one " +
+	"variadic Remove) — down to a fifth, to nothing, and up again: after EVERY single Add/Remove of addseq/removeseq Size and Contains of the value, its " +
+	"neighbours and both ends are checked, and at every size within 2 (above 5000: within 1 of a power of two) of c, c/2, c/4, 3c/4 for the capacities c of a growing Go slice the whole set " +
+	"(All, String, Size, IsEmpty; up to 300 members and within 1 of every power of two also Equal/IsSubset/IsSuperset against a set of the oracle's members and against that set plus one), " +
+	"fam=algebra-size (Difference/Intersection/Union leaving a fifth of a 256-1025 member receiver, all nine pairings of " +
+	"implementations, a set minus itself), fam=iter, fam=extreme (members 0, -1, 2^31, 2^32, MaxInt64, MinInt64 for the comparators that do not subtract), " +
+	"fam=big (65537 members — thorough also 65535, 65536 and the unordered and stable sets —, oracle only, counted as oracle_only_cases: the list-backed " +
+	"Model is quadratic there); every register other than the destination is compared with its String() snapshot " +
 	"after every op; String() of every set object an op creates or changes is parsed in the format the object must carry " +
 	"(the constructor's; for Clone/CloneEmpty/Union/Intersection/Difference/SelectMatch/PartitionMatch the receiver's, whatever " +
 	"the operands carry) and compared with the mathematical set and the required order; Powerset(s).String()/Partitions(s).String() " +
@@ -81,9 +95,18 @@ func (o *oreg) add(v int) {
 func (o *oreg) remove(v int) {
 	if o.m[v] {
 		delete(o.m, v)
-		for i, x := range o.order {
-			if x == v {
-				o.order = append(append([]int{}, o.order[:i]...), o.order[i+1:]...)
+		// searched from both ends (the long removal sequences take members from either end); no two registers
+		// share an order slice (clone copies it), so the tail is shifted in place
+		for lo, hi := 0, len(o.order)-1; lo <= hi; lo, hi = lo+1, hi-1 {
+			i := -1
+			if o.order[lo] == v {
+				i = lo
+			} else if o.order[hi] == v {
+				i = hi
+			}
+			if i >= 0 {
+				copy(o.order[i:], o.order[i+1:])
+				o.order = o.order[:len(o.order)-1]
 				break
 			}
 		}
@@ -98,6 +121,36 @@ func (o *oreg) sortedAsc() []int {
 	sort.Ints(xs)
 	return xs
 }
+
+// sizeMarks: the sizes at which a sequence of single Adds / Removes is examined in full (every step is examined
+// cheaply): within 2 (above 5000: within 1 of a power of two, else exactly) of c, c/2, c/4 and 3c/4 for the capacities c a Go slice of ints takes
+// while it grows by append: the powers of two up to 2^17 and the 1.25x steps between 512 and 12288.
+var sizeMarks = func() map[int]bool {
+	m := map[int]bool{}
+	mark := func(c int) {
+		for _, x := range []int{c, c / 2, c / 4, 3 * c / 4} {
+			w := 2
+			if x > 5000 { // a full examination of a very large set takes milliseconds
+				w = 0
+				if x&(x-1) == 0 {
+					w = 1
+				}
+			}
+			for d := -w; d <= w; d++ {
+				if x+d >= 0 {
+					m[x+d] = true
+				}
+			}
+		}
+	}
+	for c := 1; c <= 1<<17; c *= 2 {
+		mark(c)
+	}
+	for _, c := range []int{848, 1280, 1792, 2560, 3408, 5120, 7168, 9216, 12288} {
+		mark(c)
+	}
+	return m
+}()
 
 // expected iteration order, nil when unspecified (unordered)
 func (o *oreg) expectedOrder() []int {
@@ -265,6 +318,25 @@ func openToken(f byte) string {
 	return "{"
 }
 
+// scribble overwrites a slice that was passed to the set package as a variadic argument (and appends to it):
+// the values belong to the caller again once the call has returned.
+func scribble(xs []int) {
+	for i := range xs {
+		xs[i] = scribbleValue - i
+	}
+	_ = append(xs, scribbleValue, scribbleValue)
+}
+
+const scribbleValue = -7777777
+
+var nobody = set.New[int](eqInt, scribbleValue)
+
+func scribbleSets(xs []set.Set[int]) {
+	for i := range xs {
+		xs[i] = nobody
+	}
+}
+
 // the predicates of the match operations
 func parsePred(w string) func(int) bool {
 	kv := strings.SplitN(w, ":", 2)
@@ -355,6 +427,9 @@ var bell = []int{1, 1, 2, 5, 15, 52, 203, 877, 4140}
 // caseLimit is the watchdog for one case (a case normally takes well under 100 ms).
 const caseLimit = 10 * time.Second
 
+// bigCaseLimit: the same for the cases of the family fam=big (up to a minute of quadratic work on the linear-search sets).
+const bigCaseLimit = 90 * time.Second
+
 // hung is set once a case did not return: Main then stops generating (the leaked goroutine keeps a CPU
 // busy and may still draw from the package-level shuffle, so later comparisons would be noise).
 var hung atomic.Bool
@@ -373,10 +448,15 @@ func Exec(c hx.Case) hx.Result {
 		defer close(done)
 		execCase(c, pub)
 	}()
+	limit := caseLimit
+	if hx.HeaderGet(c.Header, "fam") == "big" {
+		// 65536 members: one variadic Add of the unordered and the stable set is 2*10^9 calls of equal (seconds)
+		limit = bigCaseLimit
+	}
 	select {
 	case <-done:
 		return pub.res
-	case <-time.After(caseLimit):
+	case <-time.After(limit):
 	}
 	pub.abandoned.Store(true)
 	hung.Store(true)
@@ -390,7 +470,7 @@ func Exec(c hx.Case) hx.Result {
 		if res.BadOp < len(c.Ops) {
 			op = c.Ops[res.BadOp]
 		}
-		res.What = fmt.Sprintf("%s did not return within %v", op, caseLimit)
+		res.What = fmt.Sprintf("%s did not return within %v", op, limit)
 	}
 	res.Tags = append(res.Tags, "hang")
 	return res
@@ -433,6 +513,9 @@ func execCase(c hx.Case, pub *published) {
 	if globalSrc {
 		tags["src=global"] = true
 	}
+	if fam := hx.HeaderGet(c.Header, "fam"); fam != "" {
+		tags["fam="+fam] = true
+	}
 	opMode := func() {
 		stopIfAbandoned()
 		if globalSrc {
@@ -467,8 +550,9 @@ func execCase(c hx.Case, pub *published) {
 	// does the implementation's object agree with the oracle register (content, size, order)?
 	agree := func(i int, what string, s set.Set[int], o *oreg) {
 		ms := members(s)
-		if !sameInts(sortedCopy(ms), o.sortedAsc()) {
-			bad(i, "%s holds %v, the mathematical set is %v", what, sortedCopy(ms), o.sortedAsc())
+		asc, exp := o.sortedAsc(), o.expectedOrder()
+		if !sameInts(sortedCopy(ms), asc) {
+			bad(i, "%s holds %v, the mathematical set is %v", what, sortedCopy(ms), asc)
 			return
 		}
 		if s.Size() != len(o.m) {
@@ -477,7 +561,7 @@ func execCase(c hx.Case, pub *published) {
 		if s.IsEmpty() != (len(o.m) == 0) {
 			bad(i, "%s: IsEmpty() = %v with %d members", what, s.IsEmpty(), len(o.m))
 		}
-		if exp := o.expectedOrder(); exp != nil && !sameInts(ms, exp) {
+		if exp != nil && !sameInts(ms, exp) {
 			bad(i, "%s (kind %c) iterates as %v, required order is %v", what, o.kind, ms, exp)
 		}
 		// String(): in the format this object must carry, over the same members (in the required order)
@@ -485,9 +569,9 @@ func execCase(c hx.Case, pub *published) {
 		got, okFmt := parseStr(o.fmt, str)
 		if !okFmt {
 			bad(i, "%s: String() = %q is not in format %c", what, str, o.fmt)
-		} else if !sameInts(sortedCopy(got), o.sortedAsc()) {
-			bad(i, "%s: String() = %q, the set is %v", what, str, o.sortedAsc())
-		} else if exp := o.expectedOrder(); exp != nil && !sameInts(got, exp) {
+		} else if !sameInts(sortedCopy(got), asc) {
+			bad(i, "%s: String() = %q, the set is %v", what, str, asc)
+		} else if exp != nil && !sameInts(got, exp) {
 			bad(i, "%s: String() of kind %c = %q, required order %v", what, o.kind, str, exp)
 		}
 		if o.fmt != '-' {
@@ -547,10 +631,14 @@ func execCase(c hx.Case, pub *published) {
 				}
 				s, o := regs[k], orc[k]
 				opMode()
+				// the variadic argument is a slice the caller owns: it is written to right after the call
+				// (scribble), so a set that kept it instead of copying the values out is exposed at once
+				arg := append([]int{}, vs...)
 				switch f[0] {
 				case "add":
 					dst = k
-					s.Add(vs...)
+					s.Add(arg...)
+					scribble(arg)
 					for vi, v := range vs {
 						for _, w := range vs[:vi] {
 							if w == v {
@@ -577,7 +665,8 @@ func execCase(c hx.Case, pub *published) {
 					agree(i, "after Add the set", s, o)
 				case "remove":
 					dst = k
-					s.Remove(vs...)
+					s.Remove(arg...)
+					scribble(arg)
 					for _, v := range vs {
 						if o.m[v] {
 							tags["remove-hit"] = true
@@ -590,7 +679,8 @@ func execCase(c hx.Case, pub *published) {
 					out = "ok"
 					agree(i, "after Remove the set", s, o)
 				case "contains":
-					got := s.Contains(vs...)
+					got := s.Contains(arg...)
+					scribble(arg)
 					want := true
 					for _, v := range vs {
 						want = want && o.m[v]
@@ -601,6 +691,213 @@ func execCase(c hx.Case, pub *published) {
 					}
 					observe(k)
 				}
+			case "addseq", "addvar", "removeseq", "removevar":
+				// <op> i lo n step: the n values lo, lo+step, … — `seq`: one Add / Remove call per value, the set
+				// examined after EVERY call; `var`: one variadic call
+				if len(f) != 5 {
+					return
+				}
+				k := reg(f[1])
+				ps, ok := ints(f[2:])
+				if k < 0 || !ok || ps[1] < 0 || ps[1] > 1<<20 {
+					return
+				}
+				lo, cnt, st := ps[0], ps[1], ps[2]
+				s, o := regs[k], orc[k]
+				opMode()
+				dst = k
+				adding := strings.HasPrefix(f[0], "add")
+				name := "Remove"
+				if adding {
+					name = "Add"
+				}
+				vals := make([]int, cnt)
+				for j := range vals {
+					vals[j] = lo + j*st
+				}
+				apply := func(v int) {
+					if adding {
+						o.add(v)
+						return
+					}
+					if o.m[v] {
+						tags["remove-hit"] = true
+						removedHit[k] = true
+					}
+					o.remove(v)
+				}
+				if strings.HasSuffix(f[0], "var") {
+					arg := append([]int{}, vals...)
+					if adding {
+						s.Add(arg...)
+					} else {
+						s.Remove(arg...)
+					}
+					scribble(arg)
+					for _, v := range vals {
+						apply(v)
+					}
+				} else {
+					sortedKind := isAscKind(o.kind) || isDescKind(o.kind)
+					for j, v := range vals {
+						if adding {
+							s.Add(v)
+						} else {
+							s.Remove(v)
+						}
+						apply(v)
+						n := len(o.m)
+						if s.Size() != n {
+							bad(i, "step %d, %s(%d): Size() = %d, the set has %d members", j, name, v, s.Size(), n)
+						}
+						// Contains is linear for two of the implementations: at the very large sizes a sample of the steps
+						if sortedKind || n <= 5000 || j%53 == 0 || sizeMarks[n] {
+							if got := s.Contains(v); got != adding {
+								bad(i, "step %d, after %s(%d): Contains(%d) = %v", j, name, v, v, got)
+							}
+							for _, w := range []int{v + st, v - st, lo, vals[cnt-1]} {
+								if got := s.Contains(w); got != o.m[w] {
+									bad(i, "step %d, after %s(%d): Contains(%d) = %v, want %v", j, name, v, w, got, o.m[w])
+								}
+							}
+						}
+						if sizeMarks[n] {
+							tags["seq-examined-at-size-mark"] = true
+							agree(i, fmt.Sprintf("step %d, after %s(%d) the set", j, name, v), s, o)
+							// Equal / IsSubset / IsSuperset against a set built from the oracle's members, and against
+							// that set with one member more
+							// (above 300 members only within 1 of a power of two: the relations are quadratic for two of the
+							// implementations)
+							if pow := n&(n-1) == 0 || (n+1)&n == 0 || (n-1)&(n-2) == 0; n <= 300 || pow {
+								ref := set.NewSorted[int](cmpAsc, o.sortedAsc()...)
+								if !s.Equal(ref) || !ref.Equal(s) || !s.IsSubset(ref) || !s.IsSuperset(ref) {
+									bad(i, "step %d, after %s(%d): the set is not Equal to / subset / superset of a set of its %d members", j, name, v, n)
+								}
+								ref.Add(scribbleValue)
+								if s.Equal(ref) || ref.Equal(s) || !s.IsSubset(ref) || s.IsSuperset(ref) {
+									bad(i, "step %d, after %s(%d): wrong relation to the set of its %d members plus one", j, name, v, n)
+								}
+							}
+						}
+						if res.BadOp >= 0 {
+							break
+						}
+					}
+				}
+				out = "ok"
+				agree(i, "after "+f[0]+" the set", s, o)
+				tags[f[0]] = true
+				for _, t := range []int{64, 256, 1024, 4096, 65536} {
+					if len(o.m) > t || (!adding && cnt > t) {
+						tags["set-size>"+strconv.Itoa(t)] = true
+					}
+				}
+				nontrivial = true
+			case "all2", "allnest", "allpull", "allbreak":
+				// iterators used in the ways a for-range loop does not: the same iter.Seq run twice (with a traversal
+				// of another set in between), All() inside All(), two pulled iterators advanced alternately, a
+				// traversal abandoned half-way
+				if len(f) != 3 {
+					return
+				}
+				a, b := reg(f[1]), reg(f[2])
+				if a < 0 || (f[0] != "allbreak" && b < 0) {
+					return
+				}
+				oa := orc[a]
+				opMode()
+				collect := func(seq iter.Seq[int]) []int {
+					var xs []int
+					for v := range seq {
+						xs = append(xs, v)
+					}
+					return xs
+				}
+				canon := func(o *oreg, ms []int) string {
+					if o.kind == 'u' {
+						return intsStr(sortedCopy(ms))
+					}
+					return intsStr(ms)
+				}
+				judge := func(what string, o *oreg, ms []int) {
+					if !sameInts(sortedCopy(ms), o.sortedAsc()) {
+						bad(i, "%s yields %v, the set is %v", what, ms, o.sortedAsc())
+					} else if exp := o.expectedOrder(); exp != nil && !sameInts(ms, exp) {
+						bad(i, "%s of kind %c yields %v, required order %v", what, o.kind, ms, exp)
+					}
+				}
+				switch f[0] {
+				case "all2":
+					ob := orc[b]
+					seq := regs[a].All()
+					first := collect(seq)
+					other := collect(regs[b].All())
+					second := collect(seq)
+					out = "ok " + canon(oa, first) + " " + canon(ob, other) + " " + canon(oa, second)
+					judge("All(), first run,", oa, first)
+					judge("All() of the other set", ob, other)
+					judge("the same iter.Seq run a second time", oa, second)
+				case "allnest":
+					ob := orc[b]
+					var outer []int
+					total := 0
+					for v := range regs[a].All() {
+						outer = append(outer, v)
+						inner := collect(regs[b].All())
+						total += len(inner)
+						judge("All() inside a traversal", ob, inner)
+					}
+					out = "ok " + canon(oa, outer) + " " + strconv.Itoa(total)
+					judge("All() with traversals nested in it", oa, outer)
+				case "allpull":
+					ob := orc[b]
+					next1, stop1 := iter.Pull(regs[a].All())
+					next2, stop2 := iter.Pull(regs[b].All())
+					var xs, ys []int
+					for more1, more2 := true, true; more1 || more2; {
+						if more1 {
+							var v int
+							if v, more1 = next1(); more1 {
+								xs = append(xs, v)
+							}
+						}
+						if more2 {
+							var v int
+							if v, more2 = next2(); more2 {
+								ys = append(ys, v)
+							}
+						}
+					}
+					stop1()
+					stop2()
+					out = "ok " + canon(oa, xs) + " " + canon(ob, ys)
+					judge("a pulled iterator (advanced alternately with another)", oa, xs)
+					judge("a pulled iterator (advanced alternately with another)", ob, ys)
+				case "allbreak":
+					limit, err := strconv.Atoi(f[2])
+					if err != nil || limit < 0 {
+						return
+					}
+					var head []int
+					for v := range regs[a].All() {
+						if len(head) >= limit {
+							break
+						}
+						head = append(head, v)
+					}
+					full := collect(regs[a].All())
+					out = "ok " + strconv.Itoa(len(head)) + " " + canon(oa, full)
+					seen := map[int]bool{}
+					for _, v := range head {
+						if !oa.m[v] || seen[v] {
+							bad(i, "an abandoned traversal yielded %v, the set is %v", head, oa.sortedAsc())
+						}
+						seen[v] = true
+					}
+					judge("All() after an abandoned traversal", oa, full)
+				}
+				tags[f[0]] = true
+				observe(a)
 			case "removeall", "size", "isempty", "all", "string":
 				if len(f) != 2 {
 					return
@@ -751,7 +1048,9 @@ func execCase(c hx.Case, pub *published) {
 					return
 				}
 				opMode()
-				s := newSetF(f[2][0], f[3][0], vs...)
+				arg := append([]int{}, vs...)
+				s := newSetF(f[2][0], f[3][0], arg...)
+				scribble(arg)
 				o := newOregF(f[2][0], f[3][0])
 				for _, v := range vs {
 					o.add(v)
@@ -779,7 +1078,9 @@ func execCase(c hx.Case, pub *published) {
 					return
 				}
 				opMode()
-				s := newSet(f[2][0], vs...)
+				arg := append([]int{}, vs...)
+				s := newSet(f[2][0], arg...)
+				scribble(arg)
 				o := newOreg(f[2][0])
 				seen := map[int]bool{}
 				for _, v := range vs {
@@ -1056,6 +1357,7 @@ func execCase(c hx.Case, pub *published) {
 				switch f[0] {
 				case "union":
 					t = regs[a].Union(ops...)
+					scribbleSets(ops)
 					for _, v := range recv.order {
 						o.add(v)
 					}
@@ -1077,6 +1379,7 @@ func execCase(c hx.Case, pub *published) {
 					}
 				case "inter":
 					t = regs[a].Intersection(ops...)
+					scribbleSets(ops)
 					src := recv.order
 					if recv.kind != 's' {
 						src = recv.sortedAsc()
@@ -1092,6 +1395,7 @@ func execCase(c hx.Case, pub *published) {
 					}
 				case "diff":
 					t = regs[a].Difference(ops...)
+					scribbleSets(ops)
 					src := recv.order
 					if recv.kind != 's' {
 						src = recv.sortedAsc()
@@ -1451,7 +1755,18 @@ func (g *gen) step(maxPow, maxPart int) {
 	case x < 49:
 		g.emit("isempty %d", k)
 	case x < 54:
-		g.emit("all %d", k)
+		switch j := r.Intn(n); r.Intn(12) {
+		case 0:
+			g.emit("all2 %d %d", k, j)
+		case 1:
+			g.emit("allnest %d %d", k, j)
+		case 2:
+			g.emit("allpull %d %d", k, j)
+		case 3:
+			g.emit("allbreak %d %d", k, r.Intn(4))
+		default:
+			g.emit("all %d", k)
+		}
 	case x < 60:
 		g.emit("string %d", k)
 	case x < 72:
@@ -1867,6 +2182,271 @@ func cmpMixCase(r *hx.Rand) hx.Case {
 	return hx.Case{Header: fmt.Sprintf("comp=reg sh=%d regs=%s", uint32(r.U64()), string(kinds)), Ops: ops}
 }
 
+// ---------------------------------------------------------------- size thresholds (deterministic families)
+
+// sizeCase: one implementation taken up to n members and down again. build: 0 one Add per value ascending,
+// 1 one variadic Add, 2 one Add per value descending (a sorted set inserts at the front every time), 3 the even
+// values one by one and then the odd ones in one call (inserts in the middle). shrink: 0 one Remove per value from
+// the first member upwards, 1 from the second-to-last member downwards (the last one stays), 2 one variadic Remove,
+// 3 every second member, then the rest. The set loses four fifths of its members (past the half and the quarter
+// of every capacity it went through), is compared with its untouched clone, emptied, and grown again.
+// Registers: 0 the set, 1 its clone, 2 a sorted helper, 3 results.
+func sizeCase(sh uint32, kind byte, n, build, shrink int) hx.Case {
+	var ops []string
+	emit := func(format string, a ...any) { ops = append(ops, fmt.Sprintf(format, a...)) }
+	switch build {
+	case 0:
+		emit("addseq 0 0 %d 1", n)
+	case 1:
+		emit("addvar 0 0 %d 1", n)
+	case 2:
+		emit("addseq 0 %d %d -1", n-1, n)
+	default:
+		emit("addseq 0 0 %d 2", (n+1)/2)
+		emit("addvar 0 1 %d 2", n/2)
+	}
+	look := func() {
+		emit("size 0")
+		emit("isempty 0")
+		emit("contains 0 0")
+		emit("contains 0 %d", n-1)
+		emit("contains 0 %d %d %d", n/2, n/4, 3*n/4)
+		emit("contains 0 %d", n)
+		emit("contains 0 -1")
+		emit("all 0")
+		emit("equal 0 1")
+		emit("equal 1 0")
+		emit("subset 0 1")
+		emit("superset 0 1")
+	}
+	emit("clone 1 0")
+	look()
+	// RemoveAll of a full set, and growing again in the same object
+	emit("clone 3 0")
+	emit("removeall 3")
+	emit("isempty 3")
+	emit("contains 3 0")
+	emit("addseq 3 %d 5 -1", n)
+	emit("string 3")
+	emit("equal 0 1")
+	emit("addvar 0 0 %d 1", n) // every value once more: nothing may change
+	emit("add 0 %d %d 0", n-1, n/2)
+	emit("size 0")
+	m := n - n/5
+	switch shrink {
+	case 0:
+		emit("removeseq 0 0 %d 1", m)
+	case 1:
+		emit("removeseq 0 %d %d -1", n-2, m)
+	case 2:
+		emit("removevar 0 0 %d 1", m)
+	default:
+		emit("removeseq 0 1 %d 2", n/2)
+		emit("removeseq 0 0 %d 2", m-n/2)
+	}
+	look()
+	emit("diff 3 1 0") // what was removed
+	emit("size 3")
+	emit("inter 3 1 0") // what is left
+	emit("equal 3 0")
+	emit("union 3 0 3 0")
+	emit("equal 0 3")
+	emit("diff 3 0 1") // nothing
+	emit("isempty 3")
+	emit("all2 0 1")
+	// down to nothing, one by one, and one Remove more
+	emit("removeseq 0 0 %d 1", n+1)
+	look()
+	emit("addseq 0 5 3 1")
+	emit("string 0")
+	emit("removeall 0")
+	emit("addvar 0 -3 70 1")
+	emit("removeseq 0 66 60 -1")
+	emit("string 0")
+	emit("size 1")
+	return hx.Case{Header: fmt.Sprintf("comp=reg sh=%d regs=%c%ca%c fam=size", sh, kind, kind, kind), Ops: ops}
+}
+
+// algebraSizeCase: Difference / Intersection / Union at a size where the result is a small fraction of a large
+// receiver. Registers: 0 (ka) = 0..n-1, 1 (kb) = the values of 0..n-1 that are not multiples of 5, and ten values
+// outside, 2 and 3 results.
+func algebraSizeCase(sh uint32, ka, kb byte, n int) hx.Case {
+	var ops []string
+	emit := func(format string, a ...any) { ops = append(ops, fmt.Sprintf(format, a...)) }
+	emit("addvar 0 0 %d 1", n)
+	for lo := 1; lo <= 4; lo++ {
+		emit("addvar 1 %d %d 5", lo, (n-lo+4)/5)
+	}
+	emit("addvar 1 %d 10 1", n)
+	emit("size 1")
+	emit("diff 2 0 1") // the multiples of 5: a fifth of the receiver is left
+	emit("size 2")
+	emit("inter 3 0 1")
+	emit("size 3")
+	emit("union 3 2 3")
+	emit("equal 3 0")
+	emit("diff 3 1 0") // the ten values outside
+	emit("diff 3 0 1 1 2")
+	emit("isempty 3")
+	emit("diff 3 0 0") // a set minus itself
+	emit("isempty 3")
+	emit("inter 3 0 0 0")
+	emit("equal 3 0")
+	emit("union 3 0 0")
+	emit("equal 0 3")
+	emit("subset 0 0")
+	emit("superset 0 0")
+	emit("subset 2 0")
+	emit("superset 1 2")
+	emit("inter 3 1 2")
+	emit("isempty 3")
+	emit("all2 0 1")
+	emit("size 0")
+	emit("size 1")
+	return hx.Case{Header: fmt.Sprintf("comp=reg sh=%d regs=%c%c%c%c fam=algebra-size", sh, ka, kb, ka, ka), Ops: ops}
+}
+
+// bigCase: 65535..65537 members (oracle only: the list-backed Model is quadratic there). The build and the
+// removals are chosen so that the implementation stays fast: ascending values, removals from the second-to-last
+// member downwards (the array is shifted by one place per Remove).
+func bigCase(sh uint32, kind byte, n int) hx.Case {
+	var ops []string
+	emit := func(format string, a ...any) { ops = append(ops, fmt.Sprintf(format, a...)) }
+	lo, st := 0, 1
+	if isDescKind(kind) { // descending comparator: descending values append at the end
+		lo, st = n-1, -1
+	}
+	last := lo + (n-1)*st
+	// (every op line costs a String() of every register before and after it: few lines)
+	emit("addvar 0 %d %d %d", lo, n, st)
+	emit("contains 0 0 %d %d", n-1, n/2)
+	emit("contains 0 %d", n)
+	emit("clone 1 0")
+	emit("addseq 0 %d 3 %d", last+st, st) // three more, one by one
+	emit("removeseq 0 %d %d %d", last+2*st, n-n/5, -st)
+	emit("equal 0 1")
+	emit("superset 1 0")
+	emit("contains 0 %d %d", lo, last+3*st)
+	emit("diff 2 1 0")
+	emit("inter 2 0 1")
+	emit("equal 2 0")
+	emit("removeseq 0 %d %d %d", last+2*st-(n-n/5)*st, n/5+10, -st)
+	emit("all2 0 0")
+	emit("removeall 1")
+	emit("isempty 1")
+	c := hx.Case{Header: fmt.Sprintf("comp=reg sh=%d regs=%c%c%c fam=big", sh, kind, kind, kind), Ops: ops}
+	c.NoModel = true
+	return c
+}
+
+// iterCase: iterators used in the ways a for-range loop does not.
+func iterCase(sh uint32, kinds string, n0, n1 int) hx.Case {
+	var ops []string
+	emit := func(format string, a ...any) { ops = append(ops, fmt.Sprintf(format, a...)) }
+	emit("addvar 0 0 %d 3", n0)
+	emit("addvar 1 -2 %d 2", n1)
+	emit("addvar 2 1 4 1")
+	for _, p := range [][2]int{{0, 1}, {1, 0}, {0, 0}, {2, 1}, {0, 3}, {3, 0}} {
+		emit("all2 %d %d", p[0], p[1])
+		emit("allpull %d %d", p[0], p[1])
+		if n0*n1 <= 4000 {
+			emit("allnest %d %d", p[0], p[1])
+		}
+	}
+	emit("allbreak 0 2")
+	emit("allbreak 1 0")
+	emit("allbreak 1 %d", n1)
+	emit("allbreak 3 1")
+	emit("all2 0 1")
+	emit("add 0 -9")
+	emit("all2 1 0")
+	emit("string 0")
+	emit("string 1")
+	return hx.Case{Header: fmt.Sprintf("comp=reg sh=%d regs=%s fam=iter", sh, kinds), Ops: ops}
+}
+
+// extremeCase: members at the magnitudes where a conversion or a subtraction would wrap (kinds whose comparator
+// does not subtract).
+func extremeCase(sh uint32, kinds string) hx.Case {
+	const maxI, minI = 1<<63 - 1, -1 << 63
+	ops := []string{
+		fmt.Sprintf("add 0 0 -1 %d %d %d 1 %d", maxI, minI, 1<<32, -(1 << 32)),
+		fmt.Sprintf("add 1 %d %d 0", minI, maxI),
+		fmt.Sprintf("add 2 %d %d -1 %d", 1<<31, maxI-1, minI+1),
+		"string 0", "string 1", "string 2", "all 0",
+		fmt.Sprintf("contains 0 %d", maxI), fmt.Sprintf("contains 0 %d", minI), fmt.Sprintf("contains 1 %d %d", maxI, minI),
+		fmt.Sprintf("contains 0 %d", maxI-1), fmt.Sprintf("contains 2 %d", 1<<32), "contains 0 0",
+		"union 3 0 1 2", "inter 3 0 1", "diff 3 0 1", "diff 3 0 2 1", "subset 1 0", "superset 0 1", "equal 0 1",
+		fmt.Sprintf("remove 0 %d", minI), fmt.Sprintf("remove 0 %d 0", maxI), "string 0", "size 0",
+		fmt.Sprintf("remove 1 %d %d 0", maxI, minI), "isempty 1", "inter 3 2 0", "all2 0 2",
+	}
+	return hx.Case{Header: fmt.Sprintf("comp=reg sh=%d regs=%s fam=extreme", sh, kinds), Ops: ops}
+}
+
+// sizeFamilies runs on every check; nothing in it is drawn from the PRNG (sh, the seed of the scripted shuffle,
+// is a function of the case's own parameters).
+func sizeFamilies(run *hx.Run, do func(hx.Case)) {
+	sizes := []int{63, 64, 65, 255, 256, 257, 1023, 1024, 1025}
+	kinds := "usad"
+	if run.Thorough() {
+		sizes = append(sizes, 127, 128, 129, 511, 512, 513, 2047, 2048, 2049, 4097)
+		kinds = kindLetters
+	}
+	k := 0
+	for _, n := range sizes {
+		for _, kind := range []byte(kinds) {
+			if run.Thorough() && n <= 1025 {
+				for v := 0; v < 16; v++ {
+					do(sizeCase(uint32(n*64+v), kind, n, v%4, v/4))
+				}
+				continue
+			}
+			// quick: the build and shrink variants rotate over sizes and kinds
+			do(sizeCase(uint32(n*64+k), kind, n, k%4, (k/4+k)%4))
+			k++
+		}
+	}
+	// the comparators that subtract, once each in the quick tier
+	if !run.Thorough() {
+		do(sizeCase(7, 'b', 257, 3, 0))
+		do(sizeCase(8, 'c', 1025, 2, 1))
+		do(sizeCase(9, 'e', 1024, 0, 3))
+	}
+	// set algebra between implementations: all nine pairings of {unordered, stable, sorted}
+	pair := 0
+	for _, ka := range []byte("usa") {
+		for _, kb := range []byte("usd") {
+			ns := []int{[]int{257, 600, 1025, 256, 1024}[pair%5]}
+			if run.Thorough() {
+				ns = []int{255, 256, 257, 600, 1023, 1024, 1025, 2049}
+			}
+			for _, n := range ns {
+				do(algebraSizeCase(uint32(n+pair), ka, kb, n))
+			}
+			pair++
+		}
+	}
+	do(algebraSizeCase(77, 'e', 'c', 600))
+	// iterators
+	for i, kinds := range []string{"uusa", "uuud", "suua", "aude", "ussb"} {
+		do(iterCase(uint32(100+i), kinds, 5+i, 9+2*i))
+		do(iterCase(uint32(200+i), kinds, 9+i, 4))
+	}
+	do(iterCase(300, "uuuu", 300, 700))
+	do(iterCase(301, "uusa", 1025, 64))
+	for _, kinds := range []string{"usad", "adus", "suda", "uuss"} {
+		do(extremeCase(5, kinds))
+	}
+	// 65535..65537 members, judged by the oracle only
+	do(bigCase(11, 'a', 65537))
+	if run.Thorough() {
+		do(bigCase(12, 'd', 65536))
+		do(bigCase(13, 'a', 65535))
+		do(bigCase(14, 's', 65537))
+		do(bigCase(15, 'u', 65536))
+	}
+}
+
 // enumCase: n elements of kind k, then powerset / partitions
 func enumCase(r *hx.Rand, kind byte, n int, what string, format byte) hx.Case {
 	perm := []int{}
@@ -1998,6 +2578,9 @@ func Main(run *hx.Run) {
 	for k := run.Scale(40); k > 0; k-- {
 		do(cmpMixCase(rc))
 	}
+	// the threshold families come after the short random histories: a change that breaks everyday behaviour is then
+	// reported (and shrunk) on a short history, and the long ones only speak up for what needs their size
+	sizeFamilies(run, do)
 	if run.Thorough() {
 		rx := run.R.Fork("exhaustive")
 		// (E1) every history of length <= 5 over {add v, remove v, removeall} with 3 values, and of length <= 4
